@@ -3,13 +3,18 @@
 
 ```python
 async def gather_excs(aws, only=BaseException):
-    for res in await aio.gather(*aws, return_exceptions=True):
-        if isinstance(res, only):
+    futs = [aio.ensure_future(aw) for aw in aws]
+    results = await aio.gather(*futs, return_exceptions=True)
+    for fut, res in zip(futs, results):
+        raised = fut.cancelled() or fut.exception() is not None
+        if raised and isinstance(res, only):
             yield res
 async def raise_first_exc(aws, only=BaseException):
     async for exc in gather_excs(aws, only):
         raise exc
 ```
+(after fix 246fb33: an awaitable that finishes normally with an exception *object* as its result has
+raised nothing — the slot records what was raised, `Aw.ret` what was merely returned).
 
 `asyncio.gather(..., return_exceptions=True)` is modelled as a discrete-event run: the children
 finish in *some* order `ord` (a list of indices; the model's own order is by delay, ties by
@@ -21,11 +26,13 @@ No Mathlib.
 -/
 namespace AiutiVerif.Gather
 
-/-- An awaitable: finishes after `delay` ticks, returning a plain value (`exc = none`) or
-raising an instance of class `c` (`exc = some c`). -/
+/-- An awaitable: finishes after `delay` ticks, returning (`exc = none`) or raising an instance of
+class `c` (`exc = some c`).  When it returns, its result may itself be an exception object of class
+`ret` — a value like any other: nothing in the model looks at it. -/
 structure Aw where
   delay : Nat
   exc : Option Nat
+  ret : Option Nat := none
   deriving Repr, DecidableEq
 
 /-- `i` finishes no later than `j` (virtual clock: by delay, ties by input index). -/
